@@ -73,6 +73,18 @@ def run(ctx):
             ctx.violations[v["key"]] = v
 
 
+def _pure_status(b, e, depth=0):
+    """e is a `.status` field, the initial 0, or a local all of whose definitions are"""
+    e = mir.peel(strip_sites(e))
+    if flow.is_field_named(e, "status") or const_int(e) == 0:
+        return True
+    if e[0] == "var" and depth < 4:
+        defs = b.defs.get(e[1], [])
+        return bool(defs) and all(_pure_status(b, b.def_expr(bi, si), depth + 1) for bi, si in defs if si != "T") and \
+            not any(si == "T" for bi, si in defs)
+    return False
+
+
 def func_status(ctx, crate):
     b = crate.fn("core::try_run_func")
     if not ctx.require(b is not None, "R15-1", "R15-1|anchor|try_run_func", "core::try_run_func not found"):
@@ -92,6 +104,11 @@ def func_status(ctx, crate):
         if hit is not None:
             ok = True
             detail = "status <- %s" % render(strip_sites(rhs))[:60]
+            # the value itself, not something computed from several statuses (`status |= cr.status`, max, a sum)
+            if not _pure_status(b, rhs):
+                ok = False
+                detail = "the status written is computed (%s), not the last command's status itself" % render(strip_sites(rhs))[:50]
+                break
     # and it is the LAST: the per-item assignment inside the loop is unconditional
     if ok:
         for h, blocks in b.loops().items():
@@ -201,6 +218,74 @@ def _is_flag_test(b, atom):
         flow.is_field_named(mir.peel(e), "exit_on_error") for e in mir.bool_sources(b, a[1]))
 
 
+def _set_e_world(b, rb, h, blocks):
+    """in the world `set -e is on, the command ran and its status is not 0` no path from the command leads to the next
+    line of the block: branch conditions the world decides (the flag, status ==/!= 0, bools defined from them) are
+    followed along the consistent edge only, anything else both ways"""
+    def ev(e, depth=0):
+        e = strip_sites(e)
+        if depth > 6:
+            return None
+        cb = mir.const_bool(e)
+        if cb is not None:
+            return cb
+        if e[0] == "un" and e[1] == "Not":
+            v = ev(e[2], depth + 1)
+            return None if v is None else (not v)
+        if flow.is_field_named(mir.peel(e), "exit_on_error"):
+            return True
+        if e[0] == "bin" and e[1] in ("Ne", "Eq") and const_int(e[3]) == 0 and "status" in render(b.expand_vars(e[2])):
+            return e[1] == "Ne"
+        if e[0] == "var" and b.locals[e[1]]["ty"] == "bool":
+            vals = {ev(x, depth + 1) for x in sources(e[1])}
+            return vals.pop() if len(vals) == 1 else None
+        ee = b.expand_vars(e)
+        return ev(ee, depth + 1) if ee != e else None
+
+    # blocks only reached when there is no last result (`None` arm of a match on .last()): not part of this world
+    nothing_ran = set()
+    for x in sorted(b.reachable):
+        for tgt, atom, val in b.switch_edges(x):
+            a = strip_sites(atom)
+            if a[0] == "discr" and val == "None" and any(s_[0] == "call" and last_seg(s_[1]) == "last" for s_ in mir.subexprs(a)):
+                nothing_ran |= flow.edge_dominated(b, x, tgt)
+
+    def sources(l, depth=4):
+        out = []
+        for bi, si in b.defs.get(l, []):
+            if bi in nothing_ran:
+                continue
+            x = strip_sites(b.def_expr(bi, si))
+            if x[0] == "var" and depth > 0 and x[1] != l:
+                out += sources(x[1], depth - 1)
+            else:
+                out.append(x)
+        return out
+
+    seen, todo = set(), list(b.succs[rb])
+    while todo:
+        x = todo.pop()
+        if x in seen:
+            continue
+        seen.add(x)
+        if x == h:
+            return False
+        if x not in blocks or b.term(x)["k"] == "return":
+            continue
+        edges = b.switch_edges(x)
+        if not edges:
+            todo.extend(b.succs[x])
+            continue
+        for tgt, atom, val in edges:
+            a = strip_sites(atom)
+            if a[0] == "discr" and val == "None" and any(s_[0] == "call" and last_seg(s_[1]) == "last" for s_ in mir.subexprs(a)):
+                continue            # the command ran: there is a last result
+            tv = ev(atom) if isinstance(val, bool) else None
+            if tv is None or tv == val:
+                todo.append(tgt)
+    return True
+
+
 def exit_on_error(ctx, crate):
     b = crate.fn("scripting::run_exp")
     if not ctx.require(b is not None, "R15-3", "R15-3|anchor", "scripting::run_exp not found"):
@@ -247,8 +332,9 @@ def exit_on_error(ctx, crate):
                     if atom[0] == "discr" and atom[1][0] == "call" and last_seg(atom[1][1]) == "last":
                         st_tests.add(bb)
             ok = bool(st_tests) and flow.must_pass(b, b.succs[rb][0], st_tests | tests, {h}, within=blocks)
+        strict = _set_e_world(b, rb, h, blocks)
         ctx.ob("R15-3", b.path, "exit_on_error (and the status) is tested after the command, and ends the block when set",
-               ok and leaves, key="R15-3|%s|tested#%d" % (b.path, k), where=b.loc(rb), crate=crate.kind)
+               ok and leaves and strict, key="R15-3|%s|tested#%d" % (b.path, k), where=b.loc(rb), crate=crate.kind)
         k += 1
 
 
